@@ -16,7 +16,7 @@ pkgdir=.
 if grep -q '^package dag' "$DEMO"; then pkgdir=dag; fi
 res() { echo "$1"; }
 cd "$WT"
-git apply "$DIFF" || { echo "RESULT $ID apply-failed"; exit 3; }
+git apply "$DIFF" 2>/dev/null || git apply -3 "$DIFF" || { echo "RESULT $ID apply-failed"; exit 3; }
 if ! go build ./... >/dev/null 2>&1; then echo "RESULT $ID does-not-compile"; exit 3; fi
 if ! go test -vet=off -count=1 ./... >/tmp/seedwt/$ID.suite.log 2>&1; then echo "RESULT $ID suite-fails-with-mutation"; tail -5 /tmp/seedwt/$ID.suite.log; exit 3; fi
 cp "$DEMO" "$pkgdir/zz_seed_demo_test.go"
